@@ -480,6 +480,15 @@ func (r *rw) isMap(e ast.Expr) bool {
 	return ok
 }
 
+func (r *rw) isChan(e ast.Expr) bool {
+	t := r.info.TypeOf(e)
+	if t == nil {
+		return false
+	}
+	_, ok := t.Underlying().(*types.Chan)
+	return ok
+}
+
 func (r *rw) addressable(e ast.Expr) bool {
 	tv, ok := r.info.Types[e]
 	if ok {
@@ -622,16 +631,12 @@ func (r *rw) stmt(s ast.Stmt, label string) (pre []ast.Stmt, out ast.Stmt) {
 		r.clauses(x.Body)
 		return nil, x
 	case *ast.SelectStmt:
-		for _, c := range x.Body.List {
-			cc := c.(*ast.CommClause)
-			cc.Body = r.block(cc.Body)
-		}
-		return nil, x
+		return nil, r.selectStmt(x)
 	case *ast.BlockStmt:
 		r.blockStmt(x)
 		return nil, x
 	case *ast.LabeledStmt:
-		if rs, ok := x.Stmt.(*ast.RangeStmt); ok && r.isMap(rs.X) {
+		if rs, ok := x.Stmt.(*ast.RangeStmt); ok && (r.isMap(rs.X) || r.isChan(rs.X)) {
 			return nil, r.rangeStmt(rs, x.Label.Name)
 		}
 		p, ns := r.stmt(x.Stmt, "")
@@ -648,11 +653,56 @@ func (r *rw) stmt(s ast.Stmt, label string) (pre []ast.Stmt, out ast.Stmt) {
 		}
 		return nil, x
 	case *ast.SendStmt:
-		x.Chan = r.expr(x.Chan)
-		x.Value = r.expr(x.Value)
-		return nil, x
+		// R7: channel operations go through the scheduler's channel model
+		return nil, &ast.ExprStmt{X: r.vs("ChanSend", r.expr(x.Chan), r.expr(x.Value))}
 	}
 	return nil, s
+}
+
+// R7: select statement -> switch over vsched.Select(...)
+func (r *rw) selectStmt(x *ast.SelectStmt) ast.Stmt {
+	var cases []ast.Expr
+	hasDefault := false
+	var clauses []ast.Stmt
+	res := r.tmp()
+	idx := 0
+	for _, c := range x.Body.List {
+		cc := c.(*ast.CommClause)
+		if cc.Comm == nil {
+			hasDefault = true
+			clauses = append(clauses, &ast.CaseClause{List: nil, Body: r.block(cc.Body)})
+			continue
+		}
+		var head []ast.Stmt
+		switch cm := cc.Comm.(type) {
+		case *ast.SendStmt:
+			cases = append(cases, r.vs("SendCase", r.expr(cm.Chan), r.expr(cm.Value)))
+		case *ast.ExprStmt: // <-ch
+			u := unparen(cm.X).(*ast.UnaryExpr)
+			cases = append(cases, r.vs("RecvCase", r.expr(u.X)))
+		case *ast.AssignStmt: // v := <-ch ; v, ok = <-ch
+			u := unparen(cm.Rhs[0]).(*ast.UnaryExpr)
+			chE := r.expr(u.X)
+			cases = append(cases, r.vs("RecvCase", chE))
+			lhs := append([]ast.Expr{}, cm.Lhs...)
+			if len(lhs) == 1 {
+				lhs = append(lhs, id("_"))
+			}
+			head = append(head, &ast.AssignStmt{Lhs: lhs, Tok: cm.Tok, Rhs: []ast.Expr{r.vs("SelVal", id(res), cloneExpr(chE))}})
+		}
+		clauses = append(clauses, &ast.CaseClause{List: []ast.Expr{intLit(idx)}, Body: append(head, r.block(cc.Body)...)})
+		idx++
+	}
+	def := "false"
+	if hasDefault {
+		def = "true"
+	}
+	args := append([]ast.Expr{id(def)}, cases...)
+	return &ast.SwitchStmt{
+		Init: &ast.AssignStmt{Lhs: []ast.Expr{id(res)}, Tok: token.DEFINE, Rhs: []ast.Expr{r.vs("Select", args...)}},
+		Tag:  &ast.SelectorExpr{X: id(res), Sel: id("Index")},
+		Body: &ast.BlockStmt{List: clauses},
+	}
 }
 
 func (r *rw) clauses(b *ast.BlockStmt) {
@@ -717,6 +767,31 @@ func (r *rw) goStmt(g *ast.GoStmt) ast.Stmt {
 
 // R3
 func (r *rw) rangeStmt(x *ast.RangeStmt, label string) ast.Stmt {
+	if r.isChan(x.X) {
+		// for v := range ch { body }  ->  for { v, ok := vsched.ChanRecv2(ch); if !ok { break }; body }
+		okv := r.tmp()
+		chE := r.expr(x.X)
+		r.blockStmt(x.Body)
+		var lhs ast.Expr = id("_")
+		tok := token.DEFINE
+		if x.Key != nil {
+			lhs = x.Key
+			if x.Tok == token.ASSIGN {
+				tok = token.ASSIGN
+			}
+		}
+		var pre []ast.Stmt
+		if tok == token.ASSIGN {
+			pre = append(pre, &ast.DeclStmt{Decl: &ast.GenDecl{Tok: token.VAR, Specs: []ast.Spec{&ast.ValueSpec{Names: []*ast.Ident{id(okv)}, Type: id("bool")}}}})
+		}
+		recv := &ast.AssignStmt{Lhs: []ast.Expr{lhs, id(okv)}, Tok: tok, Rhs: []ast.Expr{r.vs("ChanRecv2", chE)}}
+		brk := &ast.IfStmt{Cond: &ast.UnaryExpr{Op: token.NOT, X: id(okv)}, Body: &ast.BlockStmt{List: []ast.Stmt{&ast.BranchStmt{Tok: token.BREAK}}}}
+		loop := &ast.ForStmt{Body: &ast.BlockStmt{List: append(append(pre, recv, brk), x.Body.List...)}}
+		if label != "" {
+			return &ast.LabeledStmt{Label: id(label), Stmt: loop}
+		}
+		return loop
+	}
 	if !r.isMap(x.X) {
 		if x.Key != nil && x.Tok == token.ASSIGN {
 			x.Key = r.lhs(x.Key)
@@ -785,6 +860,13 @@ func (r *rw) assign(x *ast.AssignStmt) (pre []ast.Stmt, out ast.Stmt) {
 		if r.hasRealCall(e) {
 			realCall = true
 			callRhs[i] = true
+		}
+	}
+	// comma-ok channel receive
+	if len(x.Lhs) == 2 && len(x.Rhs) == 1 {
+		if u, ok := unparen(x.Rhs[0]).(*ast.UnaryExpr); ok && u.Op == token.ARROW {
+			x.Rhs[0] = r.vs("ChanRecv2", r.expr(u.X))
+			goto lhs
 		}
 	}
 	// comma-ok map read
@@ -1024,6 +1106,9 @@ func (r *rw) expr(e ast.Expr) ast.Expr {
 			x.X = r.lhs(x.X)
 			return x
 		}
+		if x.Op == token.ARROW {
+			return r.vs("ChanRecv", r.expr(x.X))
+		}
 		x.X = r.expr(x.X)
 		return x
 	case *ast.BinaryExpr:
@@ -1038,7 +1123,14 @@ func (r *rw) expr(e ast.Expr) ast.Expr {
 		if f, ok := x.Fun.(*ast.Ident); ok {
 			if _, isB := r.info.Uses[f].(*types.Builtin); isB {
 				switch f.Name {
+				case "close":
+					if len(x.Args) == 1 && r.isChan(x.Args[0]) {
+						return r.vs("ChanClose", r.expr(x.Args[0]))
+					}
 				case "len":
+					if r.isChan(x.Args[0]) {
+						return r.vs("ChanLen", r.expr(x.Args[0]))
+					}
 					if r.isMap(x.Args[0]) && !noAccess {
 						site := r.site(x.Args[0], false)
 						return r.vs("LenM", r.expr(x.Args[0]), site)
